@@ -69,6 +69,11 @@ func colWidthSum(cols []OutCol) int {
 // readRecords parses a result file written with the given column configuration (one header line).
 // dateCol >= 0: that column carries the model date text.
 func readRecords(path string, cols []OutCol, csv bool, dateCol int, format, divideCentury int) ([]outRec, error) {
+	return readRecordsStyle(path, cols, OutStyle{}, csv, dateCol, format, divideCentury)
+}
+
+// readRecordsStyle: as readRecords, for an output configuration with its own separator and number of header lines
+func readRecordsStyle(path string, cols []OutCol, st OutStyle, csv bool, dateCol int, format, divideCentury int) ([]outRec, error) {
 	b, err := os.ReadFile(path)
 	if err != nil {
 		return nil, err
@@ -80,12 +85,12 @@ func readRecords(path string, cols []OutCol, csv bool, dateCol int, format, divi
 	}
 	var recs []outRec
 	for i, l := range lines {
-		if i == 0 {
-			continue // header line
+		if i < st.headLines() {
+			continue // header line(s)
 		}
 		r := outRec{raw: l, line: i + 1}
 		if csv {
-			r.fields = strings.Split(l, ",")
+			r.fields = strings.Split(l, st.sep())
 		} else {
 			if len(l) == colWidthSum(cols) {
 				r.fixedW = true
@@ -116,5 +121,9 @@ func readDailyRecords(rc *RunCtx) ([]outRec, error) {
 	if p == "" {
 		return nil, fmt.Errorf("no daily result file")
 	}
-	return readRecords(p, rc.Sc.DailyCols, rc.Sc.ResultFormat == 1, 0, rc.Sc.DateFormat, rc.Sc.DivideCentury)
+	dc := colIndex(rc.Sc.DailyCols, "AKTUELL")
+	if dc < 0 {
+		dc = 0
+	}
+	return readRecordsStyle(p, rc.Sc.DailyCols, rc.Sc.OutStyle, rc.Sc.ResultFormat == 1, dc, rc.Sc.DateFormat, rc.Sc.DivideCentury)
 }
